@@ -102,10 +102,13 @@ class TopoCase(Case):
   that contains every node of the pair set (evaluated, the input is concrete)."""
   contract_key = None
   xcheck = False
+  public = False     # a private helper: when it is renamed or inlined the public projection (case ppm) still covers it
 
   def body(self, cfg, c):
     import collections
     iu = load.mod('internal_utils')
+    if not hasattr(iu, '_topological_sort'):
+      raise load.Missing('function internal_utils._topological_sort not found in the working tree')
     klv = collections.defaultdict(list)
     pairs = _pairs(cfg['pairs'])
     for i, j in pairs:
